@@ -5,6 +5,7 @@ use qbase::{
     packet::{
         decrypt::{
             decrypt_packet, remove_protection_of_long_packet, remove_protection_of_short_packet,
+            verify_long_reserved_bits, verify_short_reserved_bits,
         },
         header::long::InitialHeader,
         keys::ArcOneRttPacketKeys,
@@ -150,6 +151,11 @@ where
                 return None;
             }
         };
+        // only an authenticated packet can convict the peer of setting reserved bits
+        if let Err(invalid_reverse_bits) = verify_long_reserved_bits(pkt_buf[0]) {
+            self.drop_on_reverse_bit_error(&invalid_reverse_bits);
+            return Some(Err(invalid_reverse_bits.into()));
+        }
 
         Some(Ok(PlainPacket {
             header: self.header,
@@ -196,6 +202,11 @@ where
                 return None;
             }
         };
+        // only an authenticated packet can convict the peer of setting reserved bits
+        if let Err(invalid_reverse_bits) = verify_short_reserved_bits(pkt_buf[0]) {
+            self.drop_on_reverse_bit_error(&invalid_reverse_bits);
+            return Some(Err(invalid_reverse_bits.into()));
+        }
 
         Some(Ok(PlainPacket {
             header: self.header,
